@@ -75,7 +75,7 @@ class Contract(object):
         self.ensures_.append((name or "post%d" % len(self.ensures_), src))
         return self
 
-    def raises(self, exc, when=None, ensures=None, name=None):
+    def raises(self, exc, when=None, ensures=None, name=None, fields=None):
         """exc: exception class name (dotted or bare) or None for 'never raises'.
         when: condition over the pre-state under which it is raised.  A clause
         with `when` is exact (raised iff when); without it, the function *may*
@@ -84,7 +84,12 @@ class Contract(object):
             self.raises_ = []
             self.no_other_raises = True
             return self
-        self.raises_.append((exc, when, ensures, name or "raises%d" % len(self.raises_)))
+        rn = name or "raises%d" % len(self.raises_)
+        self.raises_.append((exc, when, ensures, rn))
+        if fields:
+            if not hasattr(self, 'raise_fields_'):
+                self.raise_fields_ = {}
+            self.raise_fields_[rn] = dict(fields)     # attribute -> kind of the raised exception
         return self
 
     def may_raise_anything(self):
@@ -125,6 +130,13 @@ class Contract(object):
     def allow_external(self):
         """External (third-party) calls inside this function are modelled as uninterpreted
         results that may raise any Exception (each listed as an assumption)."""
+        self.allow_external_ = True
+        return self
+
+    def opaque_outside(self, *modules):
+        """Only code of the given modules is interpreted while proving this contract; calls into
+        any other module (request construction helpers, factories) are uninterpreted and may raise."""
+        self.opaque_outside_ = list(modules)
         self.allow_external_ = True
         return self
 
